@@ -358,7 +358,7 @@ M("C11", "C11-SIGMA", TJ, "            err = pt.sqrt(err**2 + p[\"s\"] ** 2)\n  
 M("C11", "C11-SIGMA", TJ, "            pm.Deterministic(\"ln_prior\", model.logp() - lnlike)\n", "            pm.Deterministic(\"ln_prior\", model.logp() + lnlike)\n", "ln_prior sign")
 M("C11", "C11-UNIT", TJ, "            \"P\": xu.to_unit(self.prior.pars[\"P\"], u.day),\n", "            \"P\": self.prior.pars[\"P\"],\n", "period used in the prior's unit (reverse of fix)")
 M("C11", "C11-UNIT", TJ, "            p[name] = xu.to_unit(self.prior.pars[name], rv_unit / u.day**i)\n", "            p[name] = xu.to_unit(self.prior.pars[name], rv_unit)\n", "trend coefficients converted to a velocity")
-M("C11", "C11-UNIT", TJ, "        err = data.rv_err.to_value(data.rv.unit)\n", "        err = data.rv_err.value\n", "errors stripped in their own unit")
+M("C11", "C11-SIGMA", TJ, "        err = data.rv_err.to_value(data.rv.unit)\n", "        err = data.rv_err.value\n", "errors stripped in their own unit")
 M("C11", "C11-INIT", TJ, "            mcmc_init[name] = MAP_sample[name].to_value(unit)\n", "            mcmc_init[name] = MAP_sample[name].value\n", "initial point not converted to the prior's units")
 M("C11", "C11-INIT", TJ, "            MAP_sample = joker_samples.median_period()\n", "            MAP_sample = joker_samples[0]\n", "first sample instead of the median-period sample")
 
